@@ -334,14 +334,28 @@ func (w *World) encFound(srs *core.SearchResults) []map[string]interface{} {
 
 // Do executes one operation on the real code and records it.
 func (w *World) Do(op Op) Res {
-	now := WaitMidSecond()
+	res, ev := w.Exec(op, true)
+	w.Events = append(w.Events, ev)
+	return res
+}
+
+// Exec performs op on the real code and returns its event without recording it.
+// With sequential = false it touches no state shared between goroutines (no
+// waiting for the middle of a second, no storage images, no storage listing).
+func (w *World) Exec(op Op, sequential bool) (Res, map[string]interface{}) {
+	var now int64
+	if sequential {
+		now = WaitMidSecond()
+	} else {
+		now = time.Now().Unix()
+	}
 	ctx := quietCtx()
 	ctx.WriteKey = op.WK
 	ctx.ReadKey = op.RK
 	loc := w.Locs[op.Loc]
 	res := Res{C: "ok"}
 	val := copyMap(op.Val) // the code may modify what it is given
-	if w.FS != nil {
+	if w.FS != nil && sequential {
 		w.FS.BeginOp()
 		if op.FailIn > 0 {
 			w.FS.FailIn(op.FailIn)
@@ -432,7 +446,7 @@ recorded:
 	after := time.Now().Unix()
 	var images []interface{}
 	fired := false
-	if w.FS != nil {
+	if w.FS != nil && sequential {
 		fired = w.FS.Fired
 		w.FS.FailIn(0)
 		images = w.encodeImages(w.FS.EndOp())
@@ -486,20 +500,29 @@ recorded:
 		"inh": op.Inh, "wk": op.WK, "rk": op.RK, "now": now, "flag": op.Flag, "names": names,
 		"res": map[string]interface{}{"c": res.C, "id": res.Id, "val": t.Encode(res.Val),
 			"found": found, "ids": ids, "n": res.N, "tree": nonNilMaps(res.Tree), "vals": nonNil(res.Vals)},
-		"disk": w.diskIds(), "msg": res.Msg, "enc": res.Enc, "crashes": images, "fault": fired,
+		"msg": res.Msg, "enc": res.Enc, "crashes": images, "fault": fired,
 	}
-	w.Faulted = w.Faulted || fired
-	regs, njobs := w.cronState()
-	ev["cron"], ev["cron_n"] = regs, njobs
+	if sequential {
+		ev["disk"] = w.diskIds()
+	}
+	if sequential {
+		w.Faulted = w.Faulted || fired
+	}
+	if sequential {
+		regs, njobs := w.cronState()
+		ev["cron"], ev["cron_n"] = regs, njobs
+	}
 	if res.Bad {
 		ev["res"].(map[string]interface{})["c"] = "unintelligible"
 	}
 	if after != now {
 		ev["void"] = true // crossed a second boundary: the caller discards the trace
 	}
-	w.Events = append(w.Events, ev)
-	return res
+	return res, ev
 }
+
+// DiskIds lists what storage holds per location (exported for concurrent drivers).
+func (w *World) DiskIds() map[string]interface{} { return w.diskIds() }
 
 func nonNil(xs []interface{}) []interface{} {
 	if xs == nil {
